@@ -101,6 +101,9 @@ class Check:
         self.seed = int(seed if seed is not None else os.environ.get("VERIF_SEED", "1") or 1)
         self.t0 = time.time()
         self.work = os.path.join(VERIF, ".work", pid)
+        if os.path.realpath(REPO) != "/repo":
+            # runs against a scratch worktree get their own work directory
+            self.work += "-" + hashlib.sha256(os.path.realpath(REPO).encode()).hexdigest()[:8]
         shutil.rmtree(self.work, ignore_errors=True)
         os.makedirs(self.work, exist_ok=True)
         os.makedirs(os.path.join(VERIF, "evidence"), exist_ok=True)
